@@ -1,2 +1,184 @@
-(* C03 - proofs. *)
-From TT Require Import Lib.Base Gen.Handlers Model.Run Spec.Run Spec.C03 Corr.C03.
+(* C03 - proofs: success only if nothing was raised; one exception maps through the first
+   handler that claims it; no downgrade outside the delimited finding F2. *)
+From TT Require Import Lib.Base Gen.Handlers Model.Run Spec.Run Spec.C03 Corr.C03 Proof.RunCore.
+
+Lemma obs_eqb_spec a b : obs_eqb a b = true <-> a = b.
+Proof.
+  destruct a as [o1 k1], b as [o2 k2]; unfold obs_eqb; simpl. rewrite andb_true_iff.
+  rewrite (list_eqb_spec outcome_eqb outcome_eqb_spec), bool_eqb_spec.
+  split; [intros [-> ->]; reflexivity | intros H; injection H; auto].
+Qed.
+
+(* no generated handler reports a success (by computation on the regenerated table) *)
+Lemma table_no_success :
+  forallb (fun h => match h_out h with Some OSuccess => false | _ => true end) generated_handlers = true.
+Proof. vm_compute. reflexivity. Qed.
+
+Lemma handlers_no_success p h :
+  forallb (fun co => negb (outcome_eqb (snd co) OSuccess)) (p_handlers p) = true ->
+  In h (handlers p) -> h_out h <> Some OSuccess.
+Proof.
+  intros W Hin. unfold handlers in Hin. apply in_app_or in Hin. destruct Hin as [Hin|Hin].
+  - apply in_map_iff in Hin. destruct Hin as (co & <- & Hco). rewrite forallb_forall in W. specialize (W co Hco).
+    simpl. intros E. injection E as E. rewrite E in W. discriminate.
+  - pose proof table_no_success as T. rewrite forallb_forall in T. specialize (T h Hin).
+    intros E. rewrite E in T. discriminate.
+Qed.
+
+Lemma outs_of_calls t : outs_of t = outs_of (calls t).
+Proof. induction t as [|e r IH]; simpl; [reflexivity|]. destruct e; simpl; rewrite ?IH; reflexivity. Qed.
+
+(* what the model observes *)
+Lemma model_obs i :
+  exists o, fst (verdict (i_prog i) false) = Some o
+            /\ model i = {| o_outs := [o]; o_ok := negb (unsuccessful o) |}.
+Proof.
+  unfold model. destruct (run_bracket (i_prog i) []) as (s & o & d & R & V & C & _ & _).
+  exists o. split; [exact V|]. rewrite R, outs_of_calls, C. cbn [outs_of flat_map calls app].
+  unfold was_successful. simpl. rewrite orb_false_r. reflexivity.
+Qed.
+
+Lemma raised_collected p : skipped p = false -> collected p false = raised p.
+Proof. intros S. pose proof (collected_run_raised p) as H. unfold collected_run in H. now rewrite S in H. Qed.
+Lemma raised_skipped p : skipped p = true -> raised p = [].
+Proof. intros S. unfold raised, raised_by_user, forced_failure. now rewrite S. Qed.
+
+(* the verdict in terms of the exceptions raised *)
+Lemma verdict_cases p :
+  skipped p = false ->
+  match raised p with
+  | [] => fst (verdict p false) = Some OSuccess
+  | _ => match find (fun e => negb (claims (handlers p) e)) (raised p) with
+         | Some _ => fst (verdict p false) = last_resort
+         | None => fst (verdict p false) = outcome_for (handlers p) (last (raised p) (Exc CFail None))
+                   /\ exists h, In h (handlers p) /\ fst (verdict p false) = h_out h
+         end
+  end.
+Proof.
+  intros S. unfold verdict. rewrite S, (raised_collected p S).
+  destruct (raised p) as [|x r] eqn:E; [reflexivity|].
+  destruct (find _ (x :: r)) as [e|] eqn:F.
+  - rewrite (decide_unclaimed _ _ _ F). reflexivity.
+  - destruct (decide_claimed (handlers p) (x :: r)) as (h & L & D); [discriminate | exact F|].
+    rewrite D. cbn [fst]. unfold outcome_for. rewrite L. split; [reflexivity|].
+    exists h. split; [exact (lookup_in _ _ _ L) | reflexivity].
+Qed.
+
+Lemma raised_nil p : raised p = [] -> raised_by_user p = [] /\ (skipped p = false -> forced p = false).
+Proof.
+  unfold raised, forced_failure. intros H. apply app_eq_nil in H. destruct H as [H1 H2]. split; [exact H1|].
+  intros S. rewrite S in H2. cbn [negb andb] in H2.
+  destruct (setup_returns p) eqn:R.
+  - destruct (forced p); [discriminate | reflexivity].
+  - exfalso. unfold raised_by_user in H1. rewrite S in H1. unfold setup_returns in R.
+    destruct (setup_raise p) as [e|]; [|discriminate]. cbn [caught] in H1.
+    apply app_eq_nil in H1. destruct H1 as [H1 _]. exact (flatten_nonempty e H1).
+Qed.
+
+Theorem model_meets_spec i : wf i = true -> finding_F2 i = false -> spec_okb i (model i) = true.
+Proof.
+  intros W NF. unfold wf in W. apply andb_true_iff in W as [_ Wh].
+  destruct (model_obs i) as (o & V & ->). unfold spec_okb. cbn [o_outs o_ok].
+  destruct (skipped (i_prog i)) eqn:S.
+  - (* skip-decorated *)
+    unfold verdict in V. rewrite S in V. injection V as <-.
+    unfold success_okb, single_okb, no_downgrade_okb. rewrite (raised_skipped _ S). reflexivity.
+  - pose proof (verdict_cases (i_prog i) S) as VC. rewrite V in VC.
+    apply andb_true_iff; split; [apply andb_true_iff; split|].
+    + (* success only if nothing raised *)
+      unfold success_okb. destruct o; try reflexivity.
+      destruct (raised (i_prog i)) as [|x r] eqn:E.
+      * destruct (raised_nil _ E) as [H1 H2]. rewrite H1, (H2 S). reflexivity.
+      * exfalso. destruct (find _ (x :: r)).
+        -- rewrite table_last_resort in VC. discriminate.
+        -- destruct VC as (_ & h & Hin & Hh). exact (handlers_no_success _ h Wh Hin (eq_sym Hh)).
+    + (* a single exception maps to its outcome *)
+      unfold single_okb. destruct (raised (i_prog i)) as [|x [|y r]] eqn:E; try reflexivity.
+      unfold hs, outcome_for. cbn [find] in VC. unfold outcome_for in VC. cbn [last] in VC.
+      destruct (claims (handlers (i_prog i)) x) eqn:C; cbn [negb] in VC.
+      * destruct VC as [VC _]. rewrite <- VC. apply option_eqb_spec; [exact outcome_eqb_spec | reflexivity].
+      * apply lookup_none in C. rewrite C, <- VC. apply option_eqb_spec; [exact outcome_eqb_spec | reflexivity].
+    + (* no downgrade, outside F2 *)
+      unfold no_downgrade_okb. unfold finding_F2 in NF. fold (hs i) in VC.
+      destruct (existsb (is_failure_or_error (hs i)) (raised (i_prog i))) eqn:Ex; [|reflexivity].
+      cbn [andb] in NF. rewrite negb_involutive, andb_diag.
+      destruct (raised (i_prog i)) as [|x r] eqn:E; [discriminate|].
+      destruct (find (fun e => negb (claims (hs i) e)) (x :: r)) as [e|] eqn:F.
+      * rewrite table_last_resort in VC. injection VC as ->. reflexivity.
+      * destruct VC as [VC _].
+        assert (All : forallb (claims (hs i)) (x :: r) = true).
+        { apply forallb_forall. intros y Hy. pose proof (find_none _ _ F y Hy) as N. now apply negb_false_iff in N. }
+        rewrite All in NF. cbn [andb] in NF. rewrite <- VC in NF. now apply negb_false_iff in NF.
+Qed.
+
+Theorem spec_okb_sound i o : spec_okb i o = true -> Spec i o.
+Proof.
+  unfold spec_okb, Spec. destruct (o_outs o) as [|k [|k' r]]; try discriminate.
+  intros H. apply andb_true_iff in H as [H H3]. apply andb_true_iff in H as [H1 H2].
+  exists k. split; [reflexivity|]. split; [|split].
+  - intros ->. unfold success_okb in H1. destruct (raised_by_user (i_prog i)); [|discriminate].
+    split; [reflexivity | now apply negb_true_iff in H1].
+  - intros e E. unfold single_okb in H2. rewrite E in H2.
+    apply (option_eqb_spec outcome_eqb outcome_eqb_spec) in H2. now symmetry.
+  - intros (e & Hin & He). unfold no_downgrade_okb in H3.
+    assert (Ex : existsb (is_failure_or_error (hs i)) (raised (i_prog i)) = true)
+      by (apply existsb_exists; exists e; split; assumption).
+    rewrite Ex in H3. apply andb_true_iff in H3 as [A B]. split; [exact A | now apply negb_true_iff in B].
+Qed.
+
+(* C03_success_iff, both directions (the converse needs the test not to be skip-decorated) *)
+Theorem success_iff i :
+  wf i = true -> skipped (i_prog i) = false ->
+  (o_outs (model i) = [OSuccess] <-> raised_by_user (i_prog i) = [] /\ forced (i_prog i) = false).
+Proof.
+  intros W S. pose proof W as W'. unfold wf in W. apply andb_true_iff in W as [_ Wh].
+  destruct (model_obs i) as (o & V & ->). cbn [o_outs].
+  pose proof (verdict_cases (i_prog i) S) as VC. rewrite V in VC. split.
+  - intros H. injection H as ->.
+    destruct (raised (i_prog i)) as [|x r] eqn:E.
+    + destruct (raised_nil _ E) as [H1 H2]. split; [exact H1 | exact (H2 S)].
+    + exfalso. destruct (find _ (x :: r)).
+      * rewrite table_last_resort in VC. discriminate.
+      * destruct VC as (_ & h & Hin & Hh). exact (handlers_no_success _ h Wh Hin (eq_sym Hh)).
+  - intros [H1 H2]. assert (E : raised (i_prog i) = []).
+    { unfold raised, forced_failure. rewrite H1, H2, andb_false_r. reflexivity. }
+    rewrite E in VC. injection VC as ->. reflexivity.
+Qed.
+
+(* C03_single *)
+Theorem single_mapping i e :
+  raised (i_prog i) = [e] ->
+  exists o, o_outs (model i) = [o] /\ outcome_for (hs i) e = Some o.
+Proof.
+  intros E. destruct (model_obs i) as (o & V & ->). cbn [o_outs]. exists o. split; [reflexivity|].
+  assert (S : skipped (i_prog i) = false).
+  { destruct (skipped (i_prog i)) eqn:S; [|reflexivity]. rewrite (raised_skipped _ S) in E. discriminate. }
+  pose proof (verdict_cases (i_prog i) S) as VC. rewrite V, E in VC. cbn [find last] in VC.
+  unfold hs, outcome_for in *. destruct (claims (handlers (i_prog i)) e) eqn:C; cbn [negb] in VC.
+  - destruct VC as [VC _]. now symmetry.
+  - apply lookup_none in C. rewrite C. now symmetry.
+Qed.
+
+(* C03_no_downgrade_partial: outside F2 a failure or error is never downgraded *)
+Theorem no_downgrade_partial i e :
+  finding_F2 i = false ->
+  In e (raised (i_prog i)) -> is_failure_or_error (hs i) e = true ->
+  exists o, model i = {| o_outs := [o]; o_ok := false |} /\ unsuccessful o = true.
+Proof.
+  intros NF Hin He. destruct (model_obs i) as (o & V & ->). exists o.
+  assert (S : skipped (i_prog i) = false).
+  { destruct (skipped (i_prog i)) eqn:S; [|reflexivity]. rewrite (raised_skipped _ S) in Hin. contradiction. }
+  pose proof (verdict_cases (i_prog i) S) as VC. rewrite V in VC. fold (hs i) in VC.
+  assert (Ex : existsb (is_failure_or_error (hs i)) (raised (i_prog i)) = true)
+    by (apply existsb_exists; exists e; split; assumption).
+  unfold finding_F2 in NF. rewrite Ex in NF. cbn [andb] in NF.
+  assert (U : unsuccessful o = true).
+  { destruct (raised (i_prog i)) as [|x r] eqn:E; [contradiction|].
+    destruct (find (fun e => negb (claims (hs i) e)) (x :: r)) as [e'|] eqn:F.
+    - rewrite table_last_resort in VC. injection VC as ->. reflexivity.
+    - destruct VC as [VC _].
+      assert (All : forallb (claims (hs i)) (x :: r) = true).
+      { apply forallb_forall. intros y Hy. pose proof (find_none _ _ F y Hy) as N. now apply negb_false_iff in N. }
+      rewrite All in NF. cbn [andb] in NF. rewrite <- VC in NF. now apply negb_false_iff in NF. }
+  rewrite U. split; reflexivity.
+Qed.
